@@ -181,4 +181,21 @@ CHECKS = {
                 'population gradient is covered by C05 theorems.',
         'technique': 'Coq proof (Coquelicot is_derive, sums over outputs, chain rule) + two-stage CoqInterval-certified correspondence',
     },
+    'C13': {
+        'text': 'Machine-checked proof (Properties/C13.v): the four blocks (population parameters, optional noise scales, '
+                'simulated individuals\' parameters, noise realisations) partition the vector and the IDs have its '
+                'length; the (individual, observable, time) <-> position map of the noise block is a bijection; chi\'s '
+                'noise score is the standard-normal log-density of the realisations up to the parameter-independent '
+                'constant n_s n_obs (n_t - 1) ln(2 pi)/2; sensitivities w.r.t. noise realisations, noise scales and '
+                '(through the mechanistic output) individual parameters are the derivatives for additive and log-scale '
+                'noise (is_derive, chain rule). Population and filter terms are those of C05/C12. Tied to /repo on every '
+                'run: score (minus the pints prior) of real PopulationFilterLogPosterior objects certified by '
+                'CoqInterval against the assembled specification written as a Coq expression of the vector; every '
+                'gradient entry certified against the assembly with the filter\'s own sensitivities as upstream values; '
+                'names, IDs, lengths and reuse of the caller\'s filter checked directly.',
+        'note': 'Trusted: Coq kernel, stdlib, Coquelicot, CoqInterval, ' + STD_AXIOMS + '; hand-written models; '
+                'harness assembly (popspec + c13) is the specification; pints priors are oracles; one fix: commit '
+                '(the posterior now delegates the hierarchical bookkeeping to the population model) precedes this check.',
+        'technique': 'Coq proof (is_derive chain rule, div/mod bijection) + CoqInterval-certified correspondence',
+    },
 }
